@@ -24,6 +24,18 @@ class ForkPolicy(SeqPolicy):
     fork_std = True
 
 
+class InlineExcept(SeqPolicy):
+    """SeqPolicy, except that the named functions stay atoms (they are anchors of the rule using this policy)"""
+
+    def __init__(self, *names):
+        self.names = names
+
+    def inline(self, callee, body, depth):
+        if body["path"] in self.names or body["path"].split("::")[-1] in self.names:
+            return False
+        return SeqPolicy.inline(self, callee, body, depth)
+
+
 class InlineAll(terms.Policy):
     def inline(self, callee, body, depth):
         return True
